@@ -268,21 +268,31 @@ func (t *Task) latestDependency(pg wpg.Conn) (uint64, []byte, error) {
 		order by num asc
 		limit 1;
 	`
-	num, hash := uint64(0), []byte{}
-	err := pg.QueryRow(
-		t.ctx,
-		q,
-		t.srcName,
-		t.destConfig.Dependencies,
-	).Scan(&num, &hash)
-	switch {
-	case errors.Is(err, pgx.ErrNoRows):
-		return 0, nil, nil
-	case err != nil:
-		return 0, nil, err
-	default:
-		return num, hash, nil
+	// Every dependency must have made progress. The query skips
+	// dependencies without a row, so ask for one dependency at a time.
+	var (
+		minNum  uint64
+		minHash []byte
+	)
+	for i, dep := range t.destConfig.Dependencies {
+		num, hash := uint64(0), []byte{}
+		err := pg.QueryRow(
+			t.ctx,
+			q,
+			t.srcName,
+			[]string{dep},
+		).Scan(&num, &hash)
+		switch {
+		case errors.Is(err, pgx.ErrNoRows):
+			return 0, nil, nil
+		case err != nil:
+			return 0, nil, err
+		}
+		if i == 0 || num < minNum {
+			minNum, minHash = num, hash
+		}
 	}
+	return minNum, minHash, nil
 }
 
 func (t *Task) latest(ctx context.Context, pg wpg.Conn) (uint64, []byte, error) {
